@@ -107,6 +107,16 @@ def main():
         t = base
         for a, b in rng.sample(BENIGN, 3): t = t.replace(a, b, rng.randint(1, 5))
         f = os.path.join(wd, 'b%d.c' % k); open(f, 'w').write(t); jobs.append((f, t, 'benign:' + str(k)))
+    # constant expressions on which the host's own arithmetic would trap or is undefined: the evaluator must answer, not die
+    MIN64 = '(-9223372036854775807L - 1)'; MIN32 = '(-2147483647 - 1)'
+    traps = ['%s %s %s' % (a, op, b) for a in (MIN64, MIN32, '(-9223372036854775807 - 1)') for op in ('/', '%') for b in ('-1', '-1L', '(-1)', '0', '0L')]
+    traps += ['1 << 64', '1 << -1', '1L << 63', '1 >> 64', '-1 >> 65', '1 / (1 - 1)', '5 % (2 - 2)', '0x7fffffffffffffff + 1', '%s - 1' % MIN64, '%s * -1' % MIN64, '-%s' % MIN64, '18446744073709551615u / 0u', '(unsigned char)300 / (char)0']
+    tk = 0
+    for e in traps:
+        for ctx in ('long g = %s;\n', 'enum { E = %s };\n', 'int a[(%s) ? 1 : 1];\n', 'int f(int x) { switch (x) { case %s: return 1; } return 0; }\n', '#if %s\nint y;\n#endif\nint z;\n', 'struct S { int b : (%s) ? 1 : 1; };\n', '_Static_assert((%s) || 1, "x");\n', 'int h(void) { static long s = %s; return (int)s; }\n'):
+            if ctx.startswith('#if'): e2 = e.replace('L', '').replace('(unsigned char)300', '300').replace('(char)0', '0')
+            else: e2 = e
+            f = os.path.join(wd, 'trap%d.c' % tk); tk += 1; t = ctx % e2; open(f, 'w').write(t); jobs.append((f, t, 'trap'))
     # raw byte strings for the lexer model
     for k in range(60 if run.quick() else 600):
         n = rng.randint(1, 60)
